@@ -67,7 +67,10 @@ pub fn replay_case<K: Kern<D>, const D: usize>(tr: &mut Tracer, evs: &[Value]) {
     // abstract vertex id -> uuid number (ids are re-created in the same order, so the new trace
     // uses the same small integers)
     let vin = |a: &Value| -> VIn {
-        let m: Vec<i64> = a["m"].as_array().unwrap().iter().map(|x| x.as_i64().unwrap()).collect();
+        let m: Vec<i64> = match a["mw"].as_str() {
+            Some(w) => w.split(',').map(|x| x.parse().unwrap()).collect(),
+            None => a["m"].as_array().unwrap().iter().map(|x| x.as_i64().unwrap()).collect(),
+        };
         let data = a["data"].as_i64().filter(|&d| d >= 0).map(|d| d as i32);
         let cls = match a["cls"].as_str().unwrap_or("lattice") {
             "near" => "near",
